@@ -40,7 +40,7 @@ Accepts(ev) ==
               /\ G("C13", "ObserversAgreeWithSequence_Slot2", OneSlot \/ ev.obs[2] = Expected(kind, st[2]))
               /\ G("C13", "ConstObserversAgreeWithSequence", Has(ev, "cobs") => (ev.cobs[1] = Expected(kind, st[1]) /\ (OneSlot \/ ev.cobs[2] = Expected(kind, st[2]))))
               /\ G("C13", "EqualityAgrees", kind = "vector" => ev.eq = B(st[1] = st[2]))))
-    [] ev.e \in {"Ctor", "Dtor", "Assign", "Alloc", "Dealloc", "Free", "OpBegin", "AliasPush"} -> TRUE     \* ledger events: C16; marker
+    [] ev.e \in {"Ctor", "Dtor", "Assign", "Alloc", "Dealloc", "Free", "OpBegin", "AliasPush", "AliasArg"} -> TRUE     \* ledger events: C16; marker
     [] ev.e = "OwnerGone" -> TRUE
     [] ev.e = "panic" -> G("C13", "NoPanicInLegalState", FALSE)
     [] ev.e = "crash" -> G("C13", "ReadsAndWritesOnlyOwnStorage_NoCrash", FALSE)
